@@ -550,7 +550,9 @@ fn segment_menu() -> Vec<&'static str> {
         // integer edges: i32/u32/i64/u64 limits, and values that overflow only
         // after a unit conversion (x1000, x1000000)
         "2147483647", "2147483648", "4294967295", "9223372036854775807", "9223372036854775808", "-9223372036854775808", "18446744073709551615",
-        "9223372036854776", "-9223372036854776", "9223372036855", "18446744073709552", "253402300800", "-62135596801", ";", "*", "%5C", "a%0Ab", "%E2%80%AE", "ca%00", "CA", "ca.", "ca%20",
+        "9223372036854776", "-9223372036854776", "9223372036855", "18446744073709552", "253402300800", "-62135596801",
+        // existing objects in unusual states: a child without a certificate
+        "nocert", ";", "*", "%5C", "a%0Ab", "%E2%80%AE", "ca%00", "CA", "ca.", "ca%20",
         "aaaaaaaaaaaaaaaaaaaaaaaaaaaaaaaaaaaaaaaaaaaaaaaaaaaaaaaaaaaaaaaaaaaaaaaaaaaaaaaaaaaaaaaaaaaaaaaaaaaaaaaaaaaaaaaaaaaaaaaaaaaaaaaaaaaaaaaaaaaaaaaaaaaaaaaaaaaaaaaaaaaaaaaaaaaaaaaaaaaaaaaaaaaaaaaaaaaaaaaaaaaaaaaaaaaaaaaaaaaaaaaaaaaaaaaaaaaaaaaaaaaaaaaaaaaaaaaaaaaaaaaaaaaaaaaaaaaaaaaaaaaaaaaaaaaaaaaaaaaaaaaaaaaaaaaaaaaaaaaaaaaaaa",
     ]
 }
@@ -580,6 +582,13 @@ fn build_api_fixture() -> Result<BTreeMap<String, Value>, String> {
     let signer = crate::cms::PoolSigner::new();
     let k = signer.new_key();
     let id = signer.id_cert(k);
+    // a child of "ca" that has not asked for a certificate yet
+    {
+        let k2 = signer.new_key();
+        let req = krill::api::admin::AddChildRequest { handle: ca("nocert").convert(), resources: res("AS65008", "10.0.8.0/24", ""), id_cert: signer.id_cert(k2) };
+        w.krill.ca_manager().ca_add_child(&ca("ca"), req, &w.actor, &w.krill).map_err(|e| format!("fixture child nocert: {e}"))?;
+        let _ = w.pump();
+    }
     let mut b: BTreeMap<String, Value> = BTreeMap::new();
     b.insert("ca_init".into(), json!({"handle": "newca"}));
     b.insert(
